@@ -20,7 +20,7 @@ LEVEL_TEXT = ('Exploration: every generated input is pushed through scan, parse 
               'indicator ends a reader refill (as streams). A worker stuck inside one C call is ended by a heartbeat thread and the '
               'hang confirmed on the bread-crumbed input alone. One slice is enumerated completely: all strings over a 20-symbol indicator '
               'alphabet up to length 4 (quick) / 5 (thorough). Thorough adds an ASan+UBSan build of the glue, -X dev and '
-              'valgrind memcheck passes over the C side.')
+              'valgrind memcheck passes over the C side.' + ' Runs of 1200 / 3000 of every unusual character (BOM, NEL, LS, PS, NBSP, tab, CR, astral, indicators) in one line and at the start of many lines are part of the fixed families.')
 LEVEL_NOTE = ('Held on the inputs generated; nesting is kept below the recursion limit (excluded by the property). libyaml itself '
               'is a prebuilt library: only valgrind sees inside it. C-side hangs are decided by a repeated generous '
               'wall-clock limit on inputs < 8 KB.')
